@@ -92,7 +92,7 @@ func (c *absChain) checkBodies(tag string) {
 // height): no panic, rollback on failure, structural invariants, bodies only
 // with supplements.
 //
-//verif:harness prop=C19 tier=quick replay=interp z3timeout=400 require=pruned,rejected,adopted,kept bounds="main chain 1..2, side 0..1, prune height 0..tip+2, then a batch of 1..2 blocks as in C01; abstract consensus"
+//verif:harness prop=C19,C01 tier=quick replay=interp z3timeout=400 require=pruned,rejected,adopted,kept bounds="main chain 1..2, side 0..1, prune height 0..tip+2, then a batch of 1..2 blocks as in C01; abstract consensus"
 func VerifH_C19_prune() { verifC01(2, 1, 2, true) }
 
 //verif:harness prop=C19 tier=thorough replay=interp z3timeout=400 require=pruned,rejected,adopted,kept bounds="main<=3, side<=1, batch<=2 (main<=3, side<=2, batch<=2 was tried: 47k paths in 48 min with one query unknown: not registered)"
